@@ -662,6 +662,21 @@ Definition same_forest (f g : list xtree) : bool :=
 
 Definition same_tree (a b : xtree) : bool := same_forest [a] [b].
 
+(** The stream counterpart of [norm] (see [calls_ok] below): declaration
+    attributes dropped, every maximal run of character data one token, empty
+    runs none. *)
+Fixpoint norm_stream (l : list token) : list token :=
+  match l with
+  | [] => []
+  | TText s :: r =>
+      match norm_stream r with
+      | TText s' :: r' => TText (s ++ s')%string :: r'
+      | r' => if str_empty s then r' else TText s :: r'
+      end
+  | TStart n a :: r => TStart n (strip_decls a) :: norm_stream r
+  | x :: r => x :: norm_stream r
+  end.
+
 (** [ts] is the token sequence of one element. *)
 Definition input_wf (ts : list token) : bool :=
   match parse_tree ts with
@@ -898,6 +913,36 @@ Definition doc_spec_in (ts : list token) (o : doc_obs) : bool :=
 Definition doc_spec_ok (ts : list token) (o : doc_obs) : bool :=
   doc_spec_main ts o && doc_spec_in ts o.
 
+(** Agreement with the model up to the cutting of character data (and the
+    internal structure of the value): the streams in normal form.  Used to
+    attribute a failure of the specification to a known finding — the recorded
+    wrong behaviour is a wrong TREE, which a change in the cutting of character
+    data does not alter; [doc_agrees] itself stays exact. *)
+Definition norm_otokens (l : list otoken) : list token := norm_stream (somes l).
+
+Definition doc_agrees_mod (ts : list token) (o : doc_obs) : bool :=
+  match ts with
+  | TStart n a :: body =>
+      match capture n a body with
+      | Some (Ok (v, _)) =>
+          let v' := decoded_in_place v in
+          status_eqb (do_status o) StOk
+          && outcome_eqb (ro_outcome (do_read o)) (snd (drain v))
+          && list_eqb token_eqb (norm_otokens (drained (do_read o))) (norm_otokens (fst (drain v)))
+          && match do_dec o, retrans (fst (drain v)) with
+             | Ok l, Ok m => list_eqb token_eqb (norm_otokens l) (norm_otokens m)
+             | Err _, Err _ | Panic, Panic => true
+             | _, _ => false
+             end
+          && list_eqb token_eqb (norm_otokens (fst (do_read2 o))) (norm_otokens (fst (drain v')))
+          && outcome_eqb (snd (do_read2 o)) (snd (drain v'))
+          && marshal_agrees v' (do_mar o)
+          && marshal_in_agrees dav_ns v' (do_mar_in o)
+      | _ => false
+      end
+  | _ => false
+  end.
+
 (** Selector of known finding C15/xml-literal-namespace on a document. *)
 Definition doc_kf (ts : list token) : bool :=
   match parse_tree ts with Some t => uses_xml_space t | None => false end.
@@ -1016,20 +1061,48 @@ Definition inter_agrees (ts : list token) (n : nat) (acts : list iact) (obs : li
   end.
 
 (** The property on the observation alone, without the reader model: what each
-    reader delivers is the token stream of the document (minus declarations) —
-    a prefix of it as long as it has not ended, all of it when io.EOF comes,
-    and io.EOF from then on; every decoder view denotes the document's tree. *)
-Fixpoint calls_ok (expect : list token) (cs : list ocall) : bool :=
-  match cs with
+    reader delivers is the token stream of the document — a prefix of it as
+    long as it has not ended, all of it when io.EOF comes, and io.EOF from then
+    on; every decoder view denotes the document's tree.
+
+    "The token stream of the document" is taken modulo what is not part of the
+    element tree: namespace declaration attributes, and where the boundaries
+    between adjacent pieces of character data fall (text, CDATA section,
+    entity: encoding/xml delivers them as separate tokens, a raw value is free
+    to keep them apart or to join them).  [norm_stream] is the normal form:
+    declarations dropped, every maximal run of character data one token, empty
+    runs none — the stream counterpart of [norm] on trees. *)
+(** [a] is a beginning of [b], both in normal form: token by token, except that
+    the last token of [a], when it is character data, may be a beginning of the
+    corresponding run of [b] (the reader has not delivered the rest yet). *)
+Fixpoint tprefix (a b : list token) : bool :=
+  match a with
   | [] => true
-  | CTok (Some t) :: r =>
-      match expect with
-      | e :: expect' => token_eqb t e && calls_ok expect' r
+  | x :: a' =>
+      match b with
       | [] => false
+      | y :: b' =>
+          match x, y, a' with
+          | TText s, TText s', [] => String.prefix s s'
+          | _, _, _ => token_eqb x y && tprefix a' b'
+          end
       end
-  | CTok None :: _ => false
-  | CEof :: r => match expect with [] => forallb (ocall_eqb CEof) r | _ => false end
-  | CPanic :: _ => false
+  end.
+
+(** The tokens a reader delivered before its first call that is not a (non-nil) token. *)
+Fixpoint split_calls (cs : list ocall) : list token * list ocall :=
+  match cs with
+  | CTok (Some t) :: r => let '(l, rest) := split_calls r in (t :: l, rest)
+  | _ => ([], cs)
+  end.
+
+Definition calls_ok (expect : list token) (cs : list ocall) : bool :=
+  let '(toks, rest) := split_calls cs in
+  match rest with
+  | [] => tprefix (norm_stream toks) (norm_stream expect)
+  | CEof :: r =>
+      list_eqb token_eqb (norm_stream toks) (norm_stream expect) && forallb (ocall_eqb CEof) r
+  | _ => false                        (* a nil token, a panic *)
   end.
 
 Definition calls_of_reader (i : nat) (acts : list iact) (obs : list iobs) : list ocall :=
@@ -1037,7 +1110,7 @@ Definition calls_of_reader (i : nat) (acts : list iact) (obs : list iobs) : list
 
 Definition inter_spec_ok (ts : list token) (n : nat) (acts : list iact) (obs : list iobs) : bool :=
   same_shape acts obs
-  && forallb (fun i => calls_ok (strip_stream ts) (calls_of_reader i acts obs)) (seq 0 n)
+  && forallb (fun i => calls_ok ts (calls_of_reader i acts obs)) (seq 0 n)
   && forallb (fun d => match d with Ok l => same_stream (somes l) ts | _ => false end) (decs_of obs).
 
 (** ** Documents captured one after the other into ONE variable, with a copy of
